@@ -43,6 +43,12 @@ fn lazy_programs(quick: bool) -> Vec<(Program, Option<usize>, Vec<i64>)> {
         Br { g: G::Conj(vec![G::Anyo(vec![G::Succeed]), eq(5)]), n: None, vals: vec![5], diverges: true },
         Br { g: G::Closure(Box::new(G::Anyo(vec![G::Conde(vec![vec![eq(6)], vec![eq(7)]])]))), n: None, vals: vec![6, 7], diverges: true },
         Br { g: G::Fail, n: Some(0), vals: vec![], diverges: false },
+        // depth-first blocks below the interleaving disjunction: a silent diverger bound by a
+        // depth-first conjunction, an infinite producer whose every candidate is rejected, and a
+        // productive depth-first loop
+        Br { g: G::Fresh(vec![2], vec![G::Dfs(vec![G::Rel(Rel::Append, vec![T::V(2), T::list(vec![T::I(1)]), T::V(2)]), eq(8)])]), n: Some(0), vals: vec![], diverges: true },
+        Br { g: G::Fresh(vec![2], vec![G::Dfs(vec![G::Conj(vec![G::Rel(Rel::Member, vec![T::I(1), T::V(2)]), G::Eq(T::V(2), T::Nil)]), eq(8)])]), n: Some(0), vals: vec![], diverges: true },
+        Br { g: G::Fresh(vec![2], vec![G::Dfs(vec![G::Rel(Rel::Member, vec![T::I(1), T::V(2)]), eq(9)])]), n: None, vals: vec![9], diverges: true },
     ];
     let mut out = vec![];
     let ks: Vec<usize> = if quick { vec![1, 2] } else { vec![1, 2, 3] };
@@ -107,7 +113,7 @@ fn check_lazy(p: &Program, total: Option<usize>, vals: &[i64], index: usize) -> 
     // a finite program must end, with exactly `total` answers, and stay ended (fused is checked
     // inside run_query: three more next() calls after the first None)
     if let Some(n) = total {
-        let diverging_search = p.to_string().contains("loop");
+        let diverging_search = p.to_string().contains("loop") || p.to_string().contains("dfs");
         if !diverging_search {
             let all = run_query(nvars, p, 1000, 200_000);
             match &all.end {
